@@ -76,7 +76,8 @@ def generate(seed, batch):
     scen['first'] = rng.choice(['fext', 'k0'])
     scen['order'] = rng.sample(['kT', 'fint', 'k0', 'kT', 'fint'], 5)
     # load level and prescribed (known) amplitudes: torsion angle and load-asymmetry angle, scaled by inc
-    scen['inc'] = rng.choice([1.0, 1.0, rng.uniform(0.05, 1.0)])
+    scen['inc'] = rng.choice([1.0, 1.0, rng.uniform(0.05, 1.0), rng.uniform(0.05, 1.0), 0.0])    # (0: the unloaded reference level)
+    scen['np_scalars'] = rng.random() < 0.3
     scen['shell']['thetaTdeg'] = rng.choice([0.0, 0.0, rng.uniform(-2.0, 2.0)])
     scen['shell']['betadeg'] = rng.choice([0.0, 0.0, 0.0, rng.uniform(0.05, 1.0)])
     # which rigid-body amplitudes are prescribed: default (torsion + asymmetry), plus shortening, shortening without torsion, ...
@@ -253,11 +254,13 @@ def execute(scen):
                     raise Violation('J9-returned-tangent-altered', dict(ctx, which=n, where=where,
                                                                         why='a tangent matrix returned by an earlier calc_kT call was modified by a later call'))
 
+        inc_arg = np.float64(scen['inc']) if scen.get('np_scalars') else scen['inc']
+
         def kT_of(x):
-            return hold(cc.calc_kT(x, inc=scen['inc'], silent=True)).toarray()
+            return hold(cc.calc_kT(x, inc=inc_arg, silent=True)).toarray()
 
         def fint_of(x):
-            return np.array(cc.calc_fint(x, inc=scen['inc'], silent=True), dtype=float)
+            return np.array(cc.calc_fint(x, inc=inc_arg, silent=True), dtype=float)
 
         # ---- J1: thread counts (and call order / caching)
         base = {}
@@ -440,6 +443,26 @@ def execute(scen):
                 raise v
             bump(res['probes'], 'J8_free_full_vector_checked')
             res['steps'] += 5
+        # ---- J10: the parts the object exposes after an evaluation (kL = linear + displacement-dependent part, kG = initial-
+        #      stress part) add up to the tangent it returned, at every state, also when they are read between evaluations
+        def parts_consistent(x, label):
+            T = kT_of(x)
+            kL_, kG_ = cc.kL, cc.kG
+            if kL_ is None or kG_ is None:
+                return
+            A = (kL_ + kG_).toarray()
+            keep = np.ones(A.shape[0], dtype=bool)
+            keep[list(cc.excluded_dofs)] = False
+            A = A[np.ix_(keep, keep)]
+            if A.shape != T.shape or not (np.abs(A - T).max() <= 1e-12 * np.abs(T).max()):
+                raise Violation('J10-parts', dict(ctx, state=label, maxdiff=float(np.abs(A - T).max()) if A.shape == T.shape else None,
+                                                  scale=float(np.abs(T).max()),
+                                                  why='kL + kG of the object do not add up to the tangent returned for the same state'))
+        parts_consistent(c, 'random state')
+        parts_consistent(np.ascontiguousarray(0.6 * c - 0.03 * scen['state']['amp'] * d), 'second state')
+        parts_consistent(c, 'random state again')
+        bump(res['probes'], 'J10_parts_checked')
+        res['steps'] += 3
         # ---- JF: a kernel call fails once in the middle of an evaluation at another state.  Whatever that evaluation does
         #      (raise, or recover and return), (a) a returned tangent is still the symmetric fault-free tangent of that state,
         #      and (b) the object is not left in a state in which later evaluations return something else than before
